@@ -113,6 +113,7 @@ type DTok struct {
 	Ln   int    `json:"ln"`
 	Col  int    `json:"col"`
 	NilL bool   `json:"nil_lit,omitempty"`
+	Ps   string `json:"ps,omitempty"`
 }
 
 type DFeed struct {
